@@ -73,19 +73,23 @@ func runC09(c *core.Ctx) {
 		c.Check(okRS, "epoch database is switched after the new epoch state is persisted", "T2 Dominates", se.Pos(), "resetEpochStore(new epoch) follows SetEpochState", "the epoch database is switched before/without persisting the new epoch state, or for a different epoch")
 
 		re := c.Fn("abft.Orderer.resetEpochStore")
-		drop := re.CallsTo("abft.Store.dropEpochDB")
-		open := re.CallsTo("abft.Store.openEpochDB")
+		// each of the three steps may sit in re itself or in a helper that always performs it and hands its
+		// error on (drop/open), resp. performs it unless the callback is not set (the notification)
+		drop := c08sitesOf(re, "abft.Store.dropEpochDB", 2)
+		open := c08sitesOf(re, "abft.Store.openEpochDB", 2)
 		// the callback may be invoked directly or through a local that holds the (unchanged) field value
-		cb := c09funcFieldCalls(re, "abft.OrdererCallbacks.EpochDBLoaded")
+		cb := c09callbackSites(re, "abft.OrdererCallbacks.EpochDBLoaded")
 		okSeq := len(drop) == 1 && len(open) == 1 && len(cb) == 1
 		if okSeq {
-			okSeq = afterSuccess(re, drop[0], open[0].Pt) && afterSuccess(re, open[0], cb[0].Pt) &&
-				varOf(re, open[0].Call.Args[0]) == re.Param(0) && varOf(re, cb[0].Call.Args[0]) == re.Param(0)
+			og, oarg := c08arg(open[0], 0)
+			cg, carg := c08arg(cb[0], 0)
+			okSeq = afterSuccess(re, drop[0].Outer(), open[0].Outer().Pt) && afterSuccess(re, open[0].Outer(), cb[0].Outer().Pt) &&
+				og == re && oarg != nil && varOf(re, oarg) == re.Param(0) && cg == re && carg != nil && varOf(re, carg) == re.Param(0)
 		}
 		c.Check(okSeq, "old epoch database dropped, new one opened, index notified — in that order", "T2+T4", re.Pos(), "dropEpochDB() ok -> openEpochDB(newEpoch) ok -> EpochDBLoaded(newEpoch)", "the epoch store switch is out of order or uses a different epoch")
 		// every nil return passes the callback (unless nil)
 		if len(cb) == 1 {
-			_, miss := core.PathQuery{F: re, From: re.Entry(), Avoid: core.PointSet(cb[0].Pt), AvoidEdge: re.GuardEdges(c09fieldNilFact(re, "abft.OrdererCallbacks.EpochDBLoaded", true)), Target: func(pt core.Point) bool {
+			_, miss := core.PathQuery{F: re, From: re.Entry(), Avoid: core.PointSet(cb[0].Outer().Pt), AvoidEdge: re.GuardEdges(c09fieldNilFact(re, "abft.OrdererCallbacks.EpochDBLoaded", true)), Target: func(pt core.Point) bool {
 				r, ok := pt.Node().(*ast.ReturnStmt)
 				return ok && len(r.Results) == 1 && core.IsNil(re.Info(), r.Results[0])
 			}}.Find()
@@ -175,77 +179,7 @@ func runC09(c *core.Ctx) {
 		frameBookkeeping(c)
 	})
 
-	c.Clause("C09.stop", func() {
-		for _, name := range []string{"abft.Orderer.handleElection", "abft.Orderer.bootstrapElection"} {
-			f := c.Fn(name)
-			// variables holding the 'sealed' result
-			sealedVars := map[*types.Var]bool{}
-			f.InspectOwn(func(n ast.Node) bool {
-				as, ok := n.(*ast.AssignStmt)
-				if !ok || len(as.Rhs) != 1 || len(as.Lhs) != 2 {
-					return true
-				}
-				if isCallTo(f, as.Rhs[0], "abft.Orderer.onFrameDecided", "abft.Orderer.bootstrapElection") != nil {
-					if v := varOf(f, as.Lhs[0]); v != nil {
-						sealedVars[v] = true
-					}
-				}
-				return true
-			})
-			c.Check(len(sealedVars) >= 1, short(name)+"|sealed result is captured", "provenance", f.Pos(), "the sealed flag of onFrameDecided/bootstrapElection is kept", "the sealed result is discarded")
-			// the flag is true on this edge: `if sealed`, `if sealed == true`, `switch { case sealed: }`, or a
-			// boolean local computed from it
-			isSealed := c09lift(f, func(ft core.Fact) bool {
-				for v := range sealedVars {
-					if c33boolFact(f, v, true)(ft) {
-						return true
-					}
-				}
-				return false
-			})
-			edges := edgesWithFact(f, isSealed)
-			c.ExpectAtLeast("sealed tests in "+short(name), len(edges), 1)
-			// every call that yields a sealed flag is followed by a test of it (before any further election work)
-			more := core.Points(f.CallsTo("abft/election.Election.ProcessRoot", "abft.Orderer.onFrameDecided", "abft.Orderer.processKnownRoots", "abft.Orderer.bootstrapElection"))
-			for _, e := range edges {
-				start := blockEntry(e.B.Succs[e.Succ])
-				_, found := core.PathQuery{F: f, From: start, Target: core.PointSet(more...)}.Find()
-				if core.PointSet(more...)(start) {
-					found = true
-				}
-				c.Check(!found, short(name)+"|nothing of the old epoch after sealing", "T4 GuardedBy", posOf(core.Point{B: e.B, I: len(e.B.Nodes) - 1}), "from the sealed edge no further ProcessRoot / onFrameDecided / processKnownRoots is reachable in this call", "after the epoch was sealed the old epoch's election continues (a further block of the old epoch can be emitted)")
-			}
-			for _, cs := range f.CallsTo("abft.Orderer.onFrameDecided", "abft.Orderer.bootstrapElection") {
-				if f.Name == "abft.Orderer.bootstrapElection" && cs.Name == "abft.Orderer.bootstrapElection" {
-					continue
-				}
-				// from the call, before reaching any further election work, a sealed test is passed
-				var tests []core.Point
-				for _, e := range edges {
-					tests = append(tests, core.Point{B: e.B, I: len(e.B.Nodes) - 1})
-				}
-				okT := true
-				for _, m := range more {
-					if f.CanReach(cs.Pt, m) {
-						if o, _ := f.MustPassBetween(cs.Pt, tests, m); !o {
-							okT = false
-						}
-					}
-				}
-				c.Check(okT, short(name)+"|sealed flag of "+short(cs.Name)+" is tested before the election continues", "T2 Dominates", cs.Pos(), "every path to further election work passes the sealed test", "the election continues without looking at the sealed flag")
-			}
-			// bootstrapElection propagates sealed=true
-			if f.Name == "abft.Orderer.bootstrapElection" {
-				okProp := false
-				for _, e := range edges {
-					if o, _ := edgeLeadsOnlyTo(f, e.B, e.Succ, func(r *ast.ReturnStmt) bool { return len(r.Results) == 2 && isIdentNamed(r.Results[0], "true") }); o {
-						okProp = true
-					}
-				}
-				c.Check(okProp, "bootstrapElection reports sealing to its caller", "T8", f.Pos(), "the sealed edge returns (true, ·)", "a seal during re-processing is not reported to handleElection")
-			}
-		}
-	})
+	c.Clause("C09.stop", func() { c09Stop(c) })
 
 	c.Clause("C09.sibling", func() {
 		rs := c.Fn("abft.Orderer.Reset")
